@@ -946,4 +946,34 @@ theorem tie_headerOnce (wrote : Bool) (code : Nat) :
       ["cw := response.NewHeaderOnceResponseWriter(w)", "h.ServeHTTP(cw, r)", "cw.WriteHeader(http.StatusNotFound)", "}"] :=
   ⟨rfl, rfl, rfl⟩
 
+/-- the fields an assignment list writes (left sides that are selectors of the option's argument). -/
+def fieldsWritten (a : List (String × String)) : List String := (a.map (·.1)).filter fun l => l.toList.contains '.'
+
+/-- **what every option writes** — typed assignment lists against the model's `Settings.apply` / `Featured.apply` /
+`Server.apply`: each route option writes ONLY its own fields (never `r.routes`, except `WithPrefix`, which writes
+nothing else and stores a NEW slice); `WithJwt` leaves `prevSecret` alone; `WithSSE` also resets the timeout;
+`WithRouter` / `WithFileServer` / `WithCors` replace `server.router`, `WithChain` the engine's chain;
+`engine.addRoutes` appends the group, `engine.use` appends the middleware. -/
+theorem tie_assigns (st : Settings) (a b : String) (n : Nat) :
+    withJwtAssigns = [("r.jwt.enabled", "true"), ("r.jwt.secret", "secret")] ∧
+    (st.apply (.jwt a)).jwt = some (a, (st.jwt.map (·.2)).getD "") ∧
+    withJwtTransitionAssigns = [("r.jwt.enabled", "true"), ("r.jwt.secret", "secret"), ("r.jwt.prevSecret", "prevSecret")] ∧
+    (st.apply (.jwtTransition a b)).jwt = some (a, b) ∧
+    withTimeoutAssigns = [("r.timeout", "timeout")] ∧ (st.apply (.timeout n)) = { st with timeout := n } ∧
+    withMaxBytesAssigns = [("r.maxBytes", "maxBytes")] ∧ (st.apply (.maxBytes n)) = { st with maxBytes := n } ∧
+    withPriorityAssigns = [("r.priority", "true")] ∧ (st.apply .priority) = { st with priority := true } ∧
+    withSSEAssigns = [("r.sse", "true"), ("r.timeout", "0")] ∧ (st.apply .sse) = { st with sse := true, timeout := 0 } ∧
+    fieldsWritten withPrefixAssigns = ["r.routes"] ∧ (st.apply (.pfx a)) = st ∧
+    ((withJwtAssigns ++ withJwtTransitionAssigns ++ withTimeoutAssigns ++ withMaxBytesAssigns ++ withPriorityAssigns ++
+      withSSEAssigns).all fun x => x.1 != "r.routes") = true ∧
+    withRouterAssigns = [("server.router", "router")] ∧
+    withChainAssigns = [("svr.ngin.chain", "chn")] ∧
+    withFileServerAssigns = [("server.router", "newFileServingRouter(server.router, path, fs)")] ∧
+    withCorsAssigns = [("server.router", "newCorsRouter(server.router, nil, origin...)")] ∧
+    serverAddRoutesAssigns = [("r", "featuredRoutes{ routes: rs, }")] ∧
+    engineAddRoutesAssigns = [("r.routes", "buildSSERoutes(r.routes)"), ("ng.routes", "append(ng.routes, r)"),
+      ("ng.timeout", "r.timeout")] ∧
+    engineUseAssigns = [("ng.middlewares", "append(ng.middlewares, middleware)")] := by
+  refine ⟨rfl, rfl, rfl, rfl, rfl, rfl, rfl, rfl, rfl, rfl, rfl, rfl, by decide, rfl, by decide, rfl, rfl, rfl, rfl, rfl, rfl, rfl⟩
+
 end GoZero.C09.Tie
